@@ -43,6 +43,11 @@ def lab_flags(cfg):
         f.append("--serialize-empty")
     if cfg.get("strip"):
         f += ["--strip-prefix", cfg["strip"]]
+    if cfg.get("crate"):
+        name, version, client_version = cfg["crate"]
+        f += ["--crate", name, version]
+        if client_version:
+            f += ["--version", client_version]
     return f
 
 
@@ -84,7 +89,12 @@ def driver_source(ir, cfg, plain_types=(), registry=True, services=False):
         pkg, n = s["serviceName"]["package"], s["serviceName"]["name"]
         for ident in (n, "Async" + n, n + "Client", n + "AsyncClient", n + "Endpoints", "Async" + n + "Endpoints"):
             uses.append("use %s as _;" % rust_path(pkg, ident, strip))
-    body = ["#![allow(warnings)]", "#[path = \"gen/mod.rs\"]", "mod gen;", ""] + uses + ["",
+    if cfg.get("crate"):
+        # crate output mode: the generated code is its own package (edition and manifest as emitted)
+        head = ["#![allow(warnings)]", "use ::%s as gen;" % cfg["crate"][0].replace("-", "_"), ""]
+    else:
+        head = ["#![allow(warnings)]", "#[path = \"gen/mod.rs\"]", "mod gen;", ""]
+    body = head + uses + ["",
             "fn dispatch(c: &labrt::lab::CaseIn) -> Option<serde_json::Value> {", "    match c.ty.as_str() {"]
     body += arms if registry else []
     body += service_arms(ir, cfg) if services else []
@@ -121,6 +131,15 @@ incremental = false
 opt-level = 1
 """
 
+CARGO_PATCH = """
+[patch.crates-io]
+conjure-object = { path = "/repo/conjure-object" }
+conjure-error = { path = "/repo/conjure-error" }
+conjure-http = { path = "/repo/conjure-http" }
+conjure-serde = { path = "/repo/conjure-serde" }
+conjure-macros = { path = "/repo/conjure-macros" }
+"""
+
 
 class LabResult:
     def __init__(self):
@@ -137,7 +156,7 @@ def build_labs(key, specs):
     os.makedirs(ws)
     res = LabResult()
     res.dir = ws
-    members = []
+    members, crates = [], {}
     for sp in specs:
         name = sp["name"]
         d = os.path.join(ws, name)
@@ -145,7 +164,9 @@ def build_labs(key, specs):
         irp = os.path.join(d, "ir.json")
         with open(irp, "w") as f:
             json.dump(sp["ir"], f)
-        r = subprocess.run([GENRUN, "gen", irp, os.path.join(d, "src", "gen")] + lab_flags(sp["cfg"]), stdout=subprocess.PIPE, stderr=subprocess.PIPE, text=True, env=ENV)
+        crate = sp["cfg"].get("crate")
+        gen_out = os.path.join(d, "api") if crate else os.path.join(d, "src", "gen")
+        r = subprocess.run([GENRUN, "gen", irp, gen_out] + lab_flags(sp["cfg"]), stdout=subprocess.PIPE, stderr=subprocess.PIPE, text=True, env=ENV)
         try:
             res.gen[name] = json.loads(r.stdout.strip().splitlines()[-1])
         except Exception:
@@ -159,11 +180,18 @@ def build_labs(key, specs):
                 raise Inconclusive("genrun drive failed: " + (r.stdout + r.stderr)[-600:])
         with open(os.path.join(d, "Cargo.toml"), "w") as f:
             f.write(CARGO_MEMBER % (name, VERIF))
+            if crate:
+                f.write('%s = { path = "api" }\n' % crate[0])
         with open(os.path.join(d, "src", "main.rs"), "w") as f:
             f.write(sp["driver"])
         members.append(name)
+        if crate:
+            crates[name] = crate[0]
     with open(os.path.join(ws, "Cargo.toml"), "w") as f:
         f.write(CARGO_ROOT % ", ".join('"%s"' % m for m in members))
+        if any(sp["cfg"].get("crate") for sp in specs):
+            # the emitted manifest names the runtime crates by version; resolve them to the working tree
+            f.write(CARGO_PATCH)
     lock = os.path.join(VERIF, "harness", "Cargo.lock")
     if os.path.exists(lock):
         shutil.copy(lock, os.path.join(ws, "Cargo.lock"))
@@ -178,7 +206,10 @@ def build_labs(key, specs):
     if r.returncode != 0 and "could not compile" not in out:
         raise Inconclusive("cargo failed for the lab workspace: " + out[-1500:])
     for m in members:
+        api = crates.get(m)
         failed = re.search(r"could not compile `%s`" % re.escape(m), out) is not None
+        if api and re.search(r"could not compile `%s`" % re.escape(api), out):
+            failed = True
         res.compiled[m] = not failed and os.path.exists(os.path.join(LAB_TARGET, "debug", m))
         if failed:
             errs = [l for l in out.splitlines() if l.startswith(m + "/") and ": error" in l]
